@@ -322,6 +322,10 @@ def run(model, rep, tier):
     rep.rule('R05.9', 'compress_indices (CSR row pointers) never returns on counts / end points of the row indices alone (rules/shortcuts.py)')
     from rules import shortcuts
     shortcuts.check(model, rep, 'R05.9', 'numeric:compress_indices', why='the number of stored entries and the first and last row do not determine the row pointers; rows with several or no entries get the pointers of other rows, and the CSR triple denotes another matrix than the COO data')
+    rep.rule('R05.11', 'the integer-range shortcuts that the sparse index arithmetic (divmod of Unravel, Take of offsets) relies on are licensed by the ranges (= R06.1)')
+    from rules.c06 import check_consumers
+    from rules.c03 import _Rename as _Rn
+    check_consumers(model, _Rn(rep, {'R06.1': 'R05.11'}))
     rep.require('R05.9', 2)
     rep.rule('R05.10', 'numpy.bincount with weights (double precision accumulation) is reached for floating point data only')
     check_bincount(model, rep)
